@@ -175,7 +175,7 @@ def run(ctx, res):
     framerule.offsets(ctx, res, "C09.R5")
 
     # ---- R6 separator never drops below the block's last key ----------------------------------------
-    res.floor("C09.R6", 12)
+    res.floor("C09.R6", 8)
     sepf = prog.need("bytes_shortest_separator", W)
     res.saw(sepf)
     evs_ = APE.run(prog, cg, sepf, bound=APE.BOUND)
